@@ -353,7 +353,13 @@ _RELT.update({"B18": ["C01", "C02", "C03", "C04", "C05", "C08", "C09", "C10", "C
 # B05.p3 (the by-value iterator's two cursors merged into one `alive: Range<usize>` field: the owner discovery and the deque rules are stated on two
 # cursor fields) and B19.p3 (the odd storage node's DEFAULT built from its even sibling through a const fn that moves the halves with ptr::read:
 # C19.D is stated on struct aggregates of per-field DEFAULTs) are reported although behaviour-preserving - DESIGN 8.5
-_SKIPT = {("V14", 3), ("V18", 3), ("X14", 3), ("B05", 3), ("B19", 3), ("B12", 3)}   # B12.p3: the same Range<usize> cursor merge as B05.p3, by another author
+# tenth corpus (D<prop>.p<i>, written after seed round 19) and B01 (arrived late)
+_RELT.update({"D02": ["C01", "C02", "C10", "C12", "C13", "C18"], "D04": ["C03", "C04", "C05", "C06", "C07", "C08", "C15"], "D07": ["C03", "C04", "C05", "C07", "C15", "C16", "C17"],
+              "D08": ["C03", "C04", "C05", "C07", "C08", "C15", "C16"], "D13": ["C02", "C13"], "D16": ["C03", "C04", "C07", "C08", "C12", "C15", "C16", "C17"], "B01": ["C01", "C02", "C10", "C18", "C19"]})
+# D08.p3 (the owned map rebuilt on Mapped::generate(|i| f(read(src[i]))): index-addressed reads driven by the crate's own generate, which the step protocol
+# does not know as a range driver) and B01.p3 (N elements stored as N/2 pairs `[T; 2]`: another layout induction than the two-children node C01.S is stated
+# on - and C01.L found that it does change which astronomically large types have a layout) are reported - DESIGN 8.5
+_SKIPT = {("V14", 3), ("V18", 3), ("X14", 3), ("B05", 3), ("B19", 3), ("B12", 3), ("D08", 3), ("B01", 3)}   # B12.p3: the same Range<usize> cursor merge as B05.p3, by another author
 for _g, _props in _RELT.items():
     for _i in (1, 2, 3):
         if (_g, _i) in _SKIPT:
